@@ -10,6 +10,11 @@ from ..impl import run_impl
 from ..model import run_model
 
 ASSUMPTIONS = [
+    'model variants (remove_samples de-duplication, same_scaling full comparison: behavioural probe; accumulated-offset bookkeeping and '
+    'affine-map comparison in concatenate: presence of DataSet.get_scaling_offset / DataSet._same_affine_scaling) are selected per run',
+    'remove_labels: the rnd.sample index list is read off the implementation (labels that became -1) and validated by the model; '
+    'split_one_vs_others (float labels) is judged by implementation-side predicates only and its results are not kept',
+    'non-integer labels (only produced by split_one_vs_others) and labels < -1 (rejected by the constructor) are outside the envelope',
     'floats modelled as exact rationals; implementation values are compared exactly and, where float rounding occurred, '
     'within 1e-9*(1+|v|) (counted as "rounded" in the histogram)',
     'value-semantics model: numpy array sharing between derived data sets is not modelled; the harness detects an '
@@ -23,8 +28,16 @@ ASSUMPTIONS = [
 
 TOL = Fraction(1, 10 ** 9)
 OPN = {'scale_range': 1, 'scale_factor': 2, 'shift_value': 3, 'revert': 4, 'shuffle': 5, 'mbf': 6, 'split_labels': 7,
-       'split_pieces': 8, 'split_without_labels': 9, 'remove_samples': 10, 'concatenate': 11, 'same_scaling': 12}
-MUTATING = ('scale_range', 'scale_factor', 'shift_value', 'revert', 'shuffle', 'mbf', 'remove_samples')
+       'split_pieces': 8, 'split_without_labels': 9, 'remove_samples': 10, 'concatenate': 11, 'same_scaling': 12, 'copy': 14,
+       'remove_labels': 15, 'getters': 16}
+MUTATING = ('scale_range', 'scale_factor', 'shift_value', 'revert', 'shuffle', 'mbf', 'remove_samples', 'remove_labels')
+OPKINDS = ['scale_range', 'scale_factor', 'shift_value', 'revert', 'shuffle', 'mbf', 'split_labels', 'split_pieces',
+           'split_without_labels', 'remove_samples', 'concatenate', 'same_scaling', 'copy', 'remove_labels', 'getters', 'one_vs_others']
+OPWEIGHTS = [14, 9, 9, 11, 6, 8, 6, 10, 6, 10, 10, 4, 4, 4, 4, 2]
+# label pools: contiguous, with unlabelled samples, non-contiguous / unsorted / CPython-set-order-sensitive, large
+LABEL_POOLS = {'unlabelled': [-1], 'one': [0], '0..k': [0, 1, 2, 3], 'mixed': [-1, 0, 0, 1, 1, 2, 3], 'noncontig': [5, 17, 9],
+               'setorder': [8, 0, 1], 'gap': [3, 10, -1], 'large': [1000000, 7, 123456789012], 'twoclass': [2, 9]}
+BIG_SIZES = [63, 64, 65, 128, 129, 200, 201, 257, 1023, 1024, 1025, 1100, 2049]
 
 RANGES = [(0, 1), (0, 1), (-1, 1), (0.005, 0.995), (0, 2), (0.25, 0.75), (-2, 6), (0.5, 1.5), (-1.0, 0.0)]
 BAD_RANGES = [(1, 1), (2, 0), (0.5, 0.25)]
@@ -38,50 +51,138 @@ def gen_case(rng, tier):
     return dict(seed=rng.randrange(1 << 30), nops=rng.choice([3, 6, 9, 12, 15, 15]), kind='random')
 
 
-def gen_inits(rng):
+def gen_big_case(rng, tier):
+    """few operations on sets with sizes beyond typical block sizes (64, 128, 200, 256, 1024, 2048)"""
+    return dict(seed=rng.randrange(1 << 30), nops=rng.choice([4, 6, 8]), kind='big', big=rng.choice(BIG_SIZES))
+
+
+def big_ops(rng, inits):
+    """scripted history on the big first data set: every scaling method in its non-overriding branch, the in-place and the
+    rebuilding sample-moving operations, removal of samples beyond the block sizes, revert of the set and of a piece"""
+    n, d = len(inits[0][0]), len(inits[0][0][0])
+    cnt = len(inits)
+    arr = lambda pool: [rng.choice(pool) for _ in range(d)]
+    first = rng.choice([['scale_range', 0] + list(rng.choice(RANGES)) + [0], ['scale_factor', 0, rng.choice([2.0, 0.5, -2.0, 4.0]), 0],
+                        ['shift_value', 0, rng.choice(SHIFTS), 0], ['scale_factor', 0, arr([2.0, 0.5, -4.0]), 0]])
+    ops = [first]
+    pool = [['scale_factor', 0, rng.choice([2.0, 0.5, -2.0, 0.25]), 0], ['scale_factor', 0, arr([2.0, 0.5, -2.0]), 0],
+            ['shift_value', 0, rng.choice(SHIFTS), 0], ['shift_value', 0, arr(SHIFTS), 0],
+            ['scale_range', 0] + list(rng.choice(RANGES)) + [0], ['scale_range', 0] + list(rng.choice(RANGES)) + [1],
+            ['mbf', 0], ['getters', 0], ['copy', 0], ['remove_labels', 0, rng.choice([0.25, 0.5, 1.0])],
+            ['remove_samples', 0, sorted(set([n - 1, n // 2, rng.randrange(n), 0]))[:rng.choice([2, 3, 4])]],
+            ['split_pieces', 0, rng.choice([0.5, 0.25, 0.75, 0.8, 0.9])], ['split_without_labels', 0]]
+    if n <= 300:
+        pool.append(['shuffle', 0])
+    rng.shuffle(pool)
+    for op in pool[:rng.choice([6, 7, 8])]:
+        if op[0] == 'remove_samples':
+            op[2] = [i for i in op[2] if i < n]
+            n -= len(set(op[2]))
+            ops.append(op)
+            cnt += 1
+        elif op[0] == 'split_pieces':
+            fr = (Fraction(n) * Fraction(op[2])) % 1
+            if abs(fr - Fraction(1, 2)) < Fraction(1, 10 ** 6) and Fraction(op[2]).denominator > 64:
+                op[2] = 0.75            # float product n*p rounds onto a half-integer: outside the exact model (see ASSUMPTIONS)
+            ops.append(op)
+            ops.append(['getters', cnt + 1])
+            ops.append(['revert', cnt + rng.choice([0, 1])])
+            cnt += 2
+        elif op[0] == 'split_without_labels':
+            ops.append(op)
+            cnt += 2
+        elif op[0] == 'copy':
+            ops.append(op)
+            ops.append(['scale_factor', cnt, 2.0, 0])
+            cnt += 1
+        else:
+            ops.append(op)
+    ops += [['getters', 0], ['revert', 0]]
+    if rng.random() < 0.6:
+        ops.append(['split_labels', 0])
+    if rng.random() < 0.6:
+        ops.append(['concatenate', 0, 0])
+    return ops
+
+
+def size_bucket(n):
+    return '0' if n == 0 else '1' if n == 1 else '2-12' if n <= 12 else '13-40' if n <= 40 else '41-300' if n <= 300 else '>1000' if n > 1000 else '301-1000'
+
+
+def gen_inits(rng, big=None):
+    """initial data sets: [X, y, spec]; spec = dict(ctor=..., labels=..., values=...) describes how the DataSet object is constructed"""
     nsets = rng.choice([1, 1, 2, 2, 3])
-    d0 = rng.choice([1, 2, 2, 3, 4])
+    d0 = rng.choice([1, 2, 2, 3, 4]) if rng.random() < 0.93 else rng.choice([5, 6, 8])
+    if big:
+        d0 = min(d0, 3)
     inits = []
-    for _ in range(nsets):
+    for si in range(nsets):
         d = d0 if rng.random() < 0.9 else rng.choice([1, 2, 3, 4])
         r = rng.random()
-        n = 0 if r < 0.05 else 1 if r < 0.13 else rng.randrange(2, 13) if r < 0.75 else rng.randrange(13, 41)
+        n = 0 if r < 0.05 else 1 if r < 0.12 else rng.randrange(2, 13) if r < 0.70 else rng.randrange(13, 41) if r < 0.93 else rng.randrange(41, 131)
+        if big and si == 0:
+            n = big
         if n == 0:
-            inits.append([[], []])
+            inits.append([[], [], dict(ctor='tuple', labels='none', values='none')])
             continue
+        # value lattice: k/8 in [-4, 4], optionally integer-valued, scaled by a power of two and moved away from the origin
+        vkind = rng.choices(['lattice', 'int', 'scaled', 'far', 'negative'], [55, 12, 13, 10, 10])[0]
+        mul, add, step = 1.0, 0.0, 8.0
+        if vkind == 'int':
+            step = 1.0
+        elif vkind == 'scaled':
+            mul = 2.0 ** rng.choice([-3, -2, 3, 6, 10])
+        elif vkind == 'far':
+            add = rng.choice([100.0, -100.0, 1000.0, 4096.0])
+        elif vkind == 'negative':
+            add = -8.0
         cols = []
         for j in range(d):
             r = rng.random()
             if r < 0.12:
-                pool = [rng.randrange(-16, 17) / 8.0]                      # constant column
+                pool = [rng.randrange(-16, 17) / step]                      # constant column
             elif r < 0.55:
-                pool = [rng.randrange(-16, 17) / 8.0 for _ in range(rng.randrange(2, 5))]   # many ties
+                pool = [rng.randrange(-16, 17) / step for _ in range(rng.randrange(2, 5))]   # many ties
             else:
-                pool = [k / 8.0 for k in range(-32, 33)]
-            cols.append([rng.choice(pool) for _ in range(n)])
+                pool = [k / step for k in range(-32, 33)]
+            cols.append([rng.choice(pool) * mul + add for _ in range(n)])
         X = [[cols[j][i] for j in range(d)] for i in range(n)]
-        r = rng.random()
-        if r < 0.1:
-            y = [-1] * n
-        elif r < 0.45:
-            y = [rng.randrange(0, rng.choice([1, 2, 3, 4])) for _ in range(n)]
-        else:
-            y = [rng.choice([-1, 0, 0, 1, 1, 2, 3]) for _ in range(n)]
-        inits.append([X, y])
+        lk = rng.choices(list(LABEL_POOLS), [8, 5, 22, 30, 10, 8, 7, 5, 5])[0]
+        pool = LABEL_POOLS[lk]
+        if lk == '0..k':
+            pool = pool[:rng.choice([2, 3, 4])]
+        y = [rng.choice(pool) for _ in range(n)]
+        ctors = ['tuple', 'tuple', 'tuple', 'floatlabels']
+        if all(l == -1 for l in y):
+            ctors += ['ndarray', 'ndarray', 'ndarray']
+        if d == 1:
+            ctors += ['flat1d', 'flat1d']
+        if vkind == 'int':
+            ctors += ['intsamples', 'intsamples', 'intsamples']
+        inits.append([X, y, dict(ctor=rng.choice(ctors), labels=lk, values=vkind)])
     return inits
 
 
-def choose_op(rng, info):
-    """info: list of (n, d, scaled) per live handle."""
+def choose_op(rng, info, last=None):
+    """info: list of (n, d, scaled) per live handle; last: the previous operation (histories on ONE object: the next operation goes to the
+    same or to a freshly derived data set with a good share, and sometimes repeats the previous call verbatim)."""
     live = list(range(len(info)))
     nonempty = [h for h in live if info[h][0] > 0]
+    if last is not None and rng.random() < 0.07 and last[0] in ('scale_range', 'scale_factor', 'shift_value', 'mbf', 'remove_samples', 'split_pieces', 'getters'):
+        return list(last)                                       # verbatim repetition on the same object
     for _ in range(20):
-        h = rng.choice(nonempty) if nonempty and rng.random() < 0.88 else rng.choice(live)
+        r = rng.random()
+        if last is not None and r < 0.30 and last[1] < len(info):
+            h = last[1]                                         # same object again
+        elif last is not None and r < 0.45 and last[0] in ('split_labels', 'split_pieces', 'split_without_labels', 'remove_samples', 'concatenate', 'copy'):
+            h = len(info) - 1 - rng.randrange(min(2, len(info)))    # a data set derived by the previous call
+        else:
+            h = rng.choice(nonempty) if nonempty and rng.random() < 0.88 else rng.choice(live)
         n, d, scaled = info[h]
-        k = rng.choices(['scale_range', 'scale_factor', 'shift_value', 'revert', 'shuffle', 'mbf', 'split_labels', 'split_pieces',
-                         'split_without_labels', 'remove_samples', 'concatenate', 'same_scaling'],
-                        [14, 9, 9, 10, 6, 8, 6, 10, 6, 10, 10, 4])[0]
-        if k in ('split_labels', 'split_pieces', 'split_without_labels') and len(info) > 11:
+        k = rng.choices(OPKINDS, OPWEIGHTS)[0]
+        if k in ('split_labels', 'split_pieces', 'split_without_labels', 'copy') and len(info) > 11:
+            continue
+        if k in ('split_labels', 'one_vs_others', 'shuffle') and n > 300 and rng.random() < 0.7:
             continue
         if k == 'revert' and not scaled and rng.random() < 0.85:
             continue
@@ -99,11 +200,13 @@ def choose_op(rng, info):
             else:
                 a = rng.choice(pool)
             return [k, h, a, ov]
-        if k == 'split_pieces':
+        if k in ('split_pieces', 'remove_labels'):
             p = rng.choice(PERCENT)
             fr = (Fraction(n) * Fraction(p)) % 1
             if abs(fr - Fraction(1, 2)) < Fraction(1, 10 ** 6) and Fraction(p).denominator > 64:
                 p = 0.5
+            if k == 'remove_labels' and Fraction(p).denominator > 64:
+                p = rng.choice([0.0, 0.25, 0.5, 0.75, 1.0, 1.5])     # the labelled count is not known here: dyadic percentages only
             return [k, h, p]
         if k == 'remove_samples':
             r = rng.random()
@@ -115,6 +218,12 @@ def choose_op(rng, info):
             elif r < 0.31 and n >= 1:
                 i = rng.randrange(n)
                 idx = [i, i] + [rng.randrange(n) for _ in range(rng.randrange(0, 2))]
+            elif r < 0.40 and n >= 2:
+                idx = [n - 1] + ([0] if rng.random() < 0.5 else [])          # the last sample (stale-length bugs)
+            elif r < 0.46 and n >= 3:
+                idx = rng.sample(range(n), n - 1 if rng.random() < 0.5 else n)   # (almost) everything
+                if n > 60:
+                    idx = idx[:40]
             else:
                 idx = rng.sample(range(n), min(n, rng.randrange(1, 4))) if n else [0]
             return [k, h, idx]
@@ -149,6 +258,36 @@ def snap(d):
             [] if mn is None else [[_flt(v) for v in mn]], [] if mx is None else [[_flt(v) for v in mx]]]
 
 
+def snapo(d):
+    """snap(d) followed by the accumulated scaling offset (get_scaling_offset(), present once fixes/C18-revert-accumulated-offset is applied)"""
+    from typing import Iterable
+    g = getattr(d, 'get_scaling_offset', None)
+    off = g() if g is not None else None
+    o = [] if off is None else [1, [_flt(v) for v in off]] if isinstance(off, Iterable) else [0, _flt(off)]
+    return snap(d) + [o]
+
+
+def build(spec_init):
+    """construct the DataSet of an initial-set description [X, y(, spec)] in the way its spec says"""
+    import numpy as np
+    from sparseSpACE.DEMachineLearning import DataSet
+    X, y = spec_init[0], spec_init[1]
+    ctor = (spec_init[2] if len(spec_init) > 2 else {}).get('ctor', 'tuple')
+    if len(X) == 0:
+        return DataSet((np.array([]), np.array([], dtype=np.int64)))
+    A = np.array(X, dtype=np.float64).reshape(len(X), len(X[0]))
+    L = np.array(y, dtype=np.int64)
+    if ctor == 'ndarray':
+        return DataSet(A)                                   # samples only: all labels -1
+    if ctor == 'flat1d':
+        return DataSet((A.reshape(len(X)), L))              # 1-dimensional samples given as a vector
+    if ctor == 'intsamples':
+        return DataSet((A.astype(np.int64), L))
+    if ctor == 'floatlabels':
+        return DataSet((A, L.astype(np.float64)))
+    return DataSet((A, L))
+
+
 def pairs(s):
     return sorted((tuple(r), l) for r, l in zip(s[0], s[1]))
 
@@ -158,7 +297,19 @@ FIELDS = ('samples', 'labels', 'dim', 'ndim1', 'shuffled', 'scaled', 'scaling_ra
 
 
 def attrs(s):
-    return s[SC:SC + 5]
+    return s[SC:SC + 5] + s[10:11]
+
+
+def eff_map(s):
+    """accumulated affine map (factor, offset) of a snapshot broadcast to the dimension, or None when it is not available"""
+    d = s[2]
+    if not s[SC] or not s[SC + 2] or len(s) < 11 or not s[10]:
+        return None
+    def bc(x):
+        v = x[1] if x[0] == 1 else [x[1]] * d
+        return tuple(v) if len(v) == d else tuple(v) * d if len(v) == 1 else None
+    f, o = bc(s[SC + 2]), bc(s[10])
+    return None if f is None or o is None else (f, o)
 
 
 def near_tie(s):
@@ -201,21 +352,23 @@ def impl_run(case):
     """Runs one operation sequence on the implementation. Ops are either given (case['ops']) or drawn while running."""
     import numpy as np
     from sparseSpACE.DEMachineLearning import DataSet
+    import random as pyrandom
     rng = random.Random(case['seed'])
     np.random.seed(case['seed'] % (2 ** 32))
+    pyrandom.seed(case['seed'])
     inits = case.get('inits')
     if inits is None:
-        inits = gen_inits(rng)
-    H = []
-    for X, y in inits:
-        if len(X) == 0:
-            H.append(DataSet((np.array([]), np.array([], dtype=np.int64))))
-        else:
-            H.append(DataSet((np.array(X, dtype=np.float64).reshape(len(X), len(X[0])), np.array(y, dtype=np.int64))))
+        inits = gen_inits(rng, case.get('big'))
+    H = [build(it) for it in inits]
+    snap = snapo                                   # all snapshots of this run carry the offset field
+    has_off = hasattr(DataSet, 'get_scaling_offset')
+    last = None
     S = [snap(d) for d in H]                       # current snapshots
     ref = [None] * len(H)                          # per handle: list of original rows (when scaled) or None
     flags = [dict(sub=False, mixed=False, taint=False, zero=False) for _ in H]
     fixed = case.get('ops')
+    if fixed is None and case.get('big') and inits and inits[0][0]:
+        fixed = big_ops(rng, inits)
     nops = len(fixed) if fixed is not None else case['nops']
     trace, viol = [], []
     stop = None
@@ -243,7 +396,8 @@ def impl_run(case):
 
     for step in range(nops):
         info = [(len(s[0]), s[2], s[SC]) for s in S]
-        op = list(fixed[step]) if fixed is not None else choose_op(rng, info)
+        op = list(fixed[step]) if fixed is not None else choose_op(rng, info, last)
+        last = op
         k, h = op[0], op[1]
         if h >= len(H) or (k in ('concatenate', 'same_scaling') and op[2] >= len(H)):
             stop = 'bad-handle'
@@ -257,12 +411,13 @@ def impl_run(case):
         exc = None
         out = None
         try:
+            # non-overriding calls rely on the default of override_scaling (a changed default must not slip through)
             if k == 'scale_range':
-                d.scale_range((op[2], op[3]), override_scaling=bool(op[4]))
+                d.scale_range((op[2], op[3]), **(dict(override_scaling=True) if op[4] else {}))
             elif k == 'scale_factor':
-                d.scale_factor(np.array(op[2], dtype=np.float64) if isinstance(op[2], list) else op[2], override_scaling=bool(op[3]))
+                d.scale_factor(np.array(op[2], dtype=np.float64) if isinstance(op[2], list) else op[2], **(dict(override_scaling=True) if op[3] else {}))
             elif k == 'shift_value':
-                d.shift_value(np.array(op[2], dtype=np.float64) if isinstance(op[2], list) else op[2], override_scaling=bool(op[3]))
+                d.shift_value(np.array(op[2], dtype=np.float64) if isinstance(op[2], list) else op[2], **(dict(override_scaling=True) if op[3] else {}))
             elif k == 'revert':
                 d.revert_scaling()
             elif k == 'shuffle':
@@ -287,6 +442,17 @@ def impl_run(case):
                 out = d.concatenate(H[op[2]])
             elif k == 'same_scaling':
                 out = d.same_scaling(H[op[2]])
+            elif k == 'copy':
+                out = d.copy()
+            elif k == 'remove_labels':
+                d.remove_labels(op[2])
+            elif k == 'getters':
+                mn, mx = d.get_min_data(), d.get_max_data()
+                out = [[] if mn is None else [[_flt(v) for v in mn]], [] if mx is None else [[_flt(v) for v in mx]], int(d.get_length()),
+                       sorted(int(l) for l in d.get_labels()), int(d.get_number_labels()), int(bool(d.has_labelless_samples())),
+                       int(bool(d.is_empty()))]
+            elif k == 'one_vs_others':
+                out = d.split_one_vs_others()
             else:
                 raise RuntimeError('unknown op ' + str(k))
         except BaseException as e:
@@ -319,6 +485,9 @@ def impl_run(case):
             if raised:
                 if (sa[0], sa[1]) != (sb[0], sb[1]):
                     ent['viol'].append(dict(kind='failed-operation-modifies-data', sig=dict(op=k), why='%s raised %s but changed the data' % (k, exc)))
+                if k == 'revert' and ref[h] is not None and sb[0] and not flags[h]['zero'] and not flags[h]['taint']:
+                    # a scaling call succeeded on this (non-empty) data set since its last revert: revert_scaling has to work
+                    ent['viol'].append(dict(kind='revert-raises-on-scaled-set', sig=dict(exc=exc[0]), why='revert_scaling raised %s on a scaled data set with %d samples' % (exc, len(sb[0]))))
             else:
                 if sa[1] != sb[1] or len(sa[0]) != len(sb[0]):
                     ent['viol'].append(dict(kind='scaling-changes-labels', sig=dict(op=k), why='labels or sample count changed by ' + k))
@@ -334,6 +503,26 @@ def impl_run(case):
                         if not close(min(ca), lo) or not close(max(ca), want_hi):
                             ent['viol'].append(dict(kind='scale-range-extremes', sig=dict(constant=int(rg == 0)),
                                                     why='dimension %d: min/max after scale_range(%s,%s) are %r/%r' % (j, lo, hi, min(ca), max(ca))))
+                            break
+                if k in ('scale_factor', 'shift_value') and sb[0]:
+                    a = op[2] if isinstance(op[2], list) else [op[2]] * len(sb[0][0])
+                    f = (lambda x, c: x * c) if k == 'scale_factor' else (lambda x, c: x + c)
+                    bad = [(i, j) for i in range(len(sb[0])) for j in range(len(a)) if not close(sa[0][i][j], f(sb[0][i][j], a[j]))]
+                    if bad:
+                        i, j = bad[0]
+                        ent['viol'].append(dict(kind='scaling-wrong-values', sig=dict(op=k), why='sample %d dim %d is %r after %s(%r), was %r' % (
+                            i, j, sa[0][i][j], k, op[2], sb[0][i][j])))
+                if k == 'scale_range' and sb[0]:
+                    lo, hi = float(op[2]), float(op[3])
+                    for j in range(len(sb[0][0])):
+                        cb = [r[j] for r in sb[0]]
+                        mnb, mxb = min(cb), max(cb)
+                        if mxb - mnb <= 1e-9 * (1 + abs(mxb)):
+                            continue
+                        bad = [i for i in range(len(cb)) if not close(sa[0][i][j], lo + (cb[i] - mnb) / (mxb - mnb) * (hi - lo))]
+                        if bad:
+                            ent['viol'].append(dict(kind='scaling-wrong-values', sig=dict(op=k), why='sample %d dim %d is %r after scale_range(%s,%s), was %r in [%r,%r]' % (
+                                bad[0], j, sa[0][bad[0]][j], lo, hi, cb[bad[0]], mnb, mxb)))
                             break
                 if k == 'revert':
                     rf = ref[h]
@@ -420,6 +609,7 @@ def impl_run(case):
             else:
                 rh = new_handle(out, [h], k)
                 sr = S[rh]
+                ent['newh'] = rh
                 ent['obs'] = [0, sa, sr]
                 if oob:
                     ent['viol'].append(dict(kind='remove-out-of-range-accepted', sig={}, why='remove_samples(%s) accepted on %d samples' % (idx, n)))
@@ -454,17 +644,24 @@ def impl_run(case):
             elif out is H[h2]:
                 ent['obs'] = [0, 2]
             else:
-                # the property's refusal clause, judged with the implementation's own scaling comparison
-                try:
-                    same = bool(H[h].same_scaling(H[h2]))
-                except Exception:
-                    same = None
+                # the property's refusal clause: judged by the accumulated affine maps (factor, offset) when the implementation keeps
+                # them, else with the implementation's own scaling comparison
+                ma, mb = eff_map(sb), eff_map(sb2)
+                if has_off and (not sb[SC] or ma is not None) and (not sb2[SC] or mb is not None):
+                    same = bool(sb[SC]) == bool(sb2[SC]) and ma == mb
+                    ent['judge'] = 'affine-map'
+                else:
+                    try:
+                        same = bool(H[h].same_scaling(H[h2]))
+                    except Exception:
+                        same = None
+                    ent['judge'] = 'same_scaling' 
                 rh = new_handle(out, [h, h2], k)
                 sr = S[rh]
                 ent['obs'] = [0, 0, sr]
                 if sorted(pairs(sb) + pairs(sb2)) != pairs(sr):
                     ent['viol'].append(dict(kind='multiset-changed', sig=dict(op=k), why='concatenate result != union of the operands'))
-                if same is False and sb[0] and sb2[0]:
+                if same is False and sb2[0]:      # (an EMPTY other set adds nothing; an empty self still stamps its scaling on the other's samples)
                     ent['viol'].append(dict(kind='concatenate-different-scaling-accepted', sig={},
                                             why='same_scaling is False (attributes %r vs %r) but concatenate returned a joined set' % (attrs(sb), attrs(sb2))))
                     flags[rh]['mixed'] = True
@@ -474,6 +671,87 @@ def impl_run(case):
                     flags[rh]['sub'] = True
         elif k == 'same_scaling':
             ent['obs'] = [1] if raised else [0, int(bool(out))]
+            sb2 = Sb[op[2]]
+            if not raised:
+                # the answer must agree with the observable scaling attributes whenever range and factor have the same shapes on both sides
+                if bool(sb[SC]) != bool(sb2[SC]):
+                    want = False
+                elif not sb[SC]:
+                    want = True
+                elif sb[SC + 1] and sb2[SC + 1] and sb[SC + 2] and sb2[SC + 2] and sb[SC + 1][0] == sb2[SC + 1][0] and sb[SC + 2][0] == sb2[SC + 2][0]:
+                    want = sb[SC + 1] == sb2[SC + 1] and sb[SC + 2] == sb2[SC + 2]
+                else:
+                    want = None
+                if want is not None and bool(out) != want:
+                    ent['viol'].append(dict(kind='same-scaling-wrong', sig=dict(want=int(want), dim=sb[2]),
+                                            why='same_scaling returned %r for attributes %r vs %r' % (bool(out), attrs(sb), attrs(sb2))))
+        elif k == 'copy':
+            if raised:
+                ent['obs'] = [1]
+            else:
+                ch = new_handle(out, [h], k)
+                ent['obs'] = [0, S[ch]]
+                if S[ch] != sb:
+                    what = [nm for nm, a, b in zip(FIELDS, sb, S[ch]) if a != b]
+                    ent['viol'].append(dict(kind='copy-differs', sig=dict(changed=','.join(what)), why='copy() differs from its source in %s' % what))
+                if ref[h] is not None and len(ref[h]) == len(S[ch][0]):
+                    ref[ch] = list(ref[h])
+                flags[ch] = dict(flags[h])
+        elif k == 'remove_labels':
+            m = sum(1 for l in sb[1] if l != -1)
+            # rnd.sample index list read off the result: positions (among the labelled samples, in their order) whose label became -1
+            ent['idx'] = [i for i in range(min(m, len(sa[1]))) if sa[1][i] == -1] if not raised else []
+            ent['obs'] = [raised, sa]
+            if not raised:
+                p = op[2] if 0 <= op[2] < 1 else 1.0
+                if sorted(map(tuple, sa[0])) != sorted(map(tuple, sb[0])):
+                    ent['viol'].append(dict(kind='multiset-changed', sig=dict(op=k), why='remove_labels changed the multiset of samples'))
+                else:
+                    before, after = pairs(sb), pairs(sa)
+                    kept = [q for q in after if q[1] != -1]
+                    pool = list(before)
+                    okk = True
+                    for q in kept:
+                        if q in pool:
+                            pool.remove(q)
+                        else:
+                            okk = False
+                    nnew = sum(1 for l in sa[1] if l == -1) - sum(1 for l in sb[1] if l == -1)
+                    if not okk:
+                        ent['viol'].append(dict(kind='remove-labels-relabels', sig={}, why='remove_labels attached a label to another sample'))
+                    elif nnew != round(p * m):
+                        ent['viol'].append(dict(kind='remove-labels-count', sig={}, why='remove_labels(%r) removed %d of %d labels' % (op[2], nnew, m)))
+                if attrs(sa) != attrs(sb):
+                    ent['viol'].append(dict(kind='attributes-not-carried', sig=dict(op=k), why='remove_labels changed scaling attributes'))
+                if ref[h] is not None:
+                    cr = ref[h]
+                    ref[h] = match_refs([(tuple(r), -1) for r in sa[0]],
+                                        [((tuple(r), -1), cr[i] if i < len(cr) else 'U') for i, r in enumerate(sb[0])])
+        elif k == 'getters':
+            ent['obs'] = [1] if raised else out
+            if not raised:
+                n = len(sb[0])
+                want = [[[min(r[j] for r in sb[0]) for j in range(len(sb[0][0]))]] if n else [],
+                        [[max(r[j] for r in sb[0]) for j in range(len(sb[0][0]))]] if n else [],
+                        n, sorted(set(sb[1])), len(set(l for l in sb[1] if l >= 0)), int(-1 in sb[1]), int(n == 0)]
+                if out != want:
+                    what = [nm for nm, a, b in zip(('min', 'max', 'length', 'labels', 'number_labels', 'has_labelless', 'is_empty'), out, want) if a != b]
+                    ent['viol'].append(dict(kind='getter-wrong', sig=dict(getter=','.join(what)), why='getters return %r, the data say %r' % (out, want)))
+        elif k == 'one_vs_others':
+            ent['obs'] = None                      # not in the model (float labels): implementation-side predicates only
+            if not raised:
+                labs = [int(l) for l in H[h].get_labels()]
+                so = [snap(o) for o in out]
+                for j, s2 in enumerate(so):
+                    if s2[0] != sb[0]:
+                        ent['viol'].append(dict(kind='multiset-changed', sig=dict(op=k), why='split_one_vs_others set %d does not hold the samples of its source in order' % j))
+                        break
+                    if attrs(s2) != attrs(sb):
+                        ent['viol'].append(dict(kind='attributes-not-carried', sig=dict(op=k), why='split_one_vs_others set has attributes %r, source %r' % (attrs(s2), attrs(sb))))
+                        break
+                    if j < len(labs) and [int(l == 1) for l in s2[1]] != [int(l == labs[j]) for l in sb[1]]:
+                        ent['viol'].append(dict(kind='one-vs-others-labels', sig={}, why='split_one_vs_others set %d does not mark exactly the samples of class %r with 1' % (j, labs[j])))
+                        break
         trace.append(ent)
         if len(H) > 40:
             stop = 'too-many-handles'
@@ -502,7 +780,7 @@ def probe_variant(_case):
         full = int(ok1 and not bool(b.same_scaling(c)))
     except Exception:
         full = 0
-    return [dedup, full]
+    return [dedup, full, int(hasattr(DataSet, 'get_scaling_offset')), int(hasattr(DataSet, '_same_affine_scaling'))]
 
 
 # --------------------------------------------------------------------------------------------- model side
@@ -530,6 +808,10 @@ def model_ops(trace):
             m = [10, h, [int(v) for v in op[2]]]
         elif k in ('concatenate', 'same_scaling'):
             m = [OPN[k], h, int(op[2])]
+        elif k == 'remove_labels':
+            m = [15, h, float(op[2]), [int(v) for v in ent.get('idx', [])]]
+        elif k == 'one_vs_others':
+            continue
         else:
             m = [OPN[k], h]
         mops.append(m); owner.append(i)
@@ -563,6 +845,13 @@ def cmp_obs(impl, model, path=''):
             worst = max(worst, st)
         return worst, path
     return 2, path
+
+
+def sorted_snapshot(s, model=False):
+    """snapshot with its (sample, label) pairs in ascending order (model values are rationals on the wire)"""
+    key = (lambda rl: ([sx.q(v) for v in rl[0]], rl[1])) if model else (lambda rl: ([sx.rat(v) for v in rl[0]], rl[1]))
+    prs = sorted(zip(s[0], s[1]), key=key)
+    return [[r for r, _ in prs], [l for _, l in prs]] + list(s[2:])
 
 
 CORPUS = [
@@ -606,6 +895,12 @@ CORPUS = [
          inits=[[[[1.0], [2.0]], [0, 1]], [[[1.0, 1.0, 1.0], [2.0, 3.0, 5.0]], [0, 1]]],
          ops=[['split_pieces', 0, 0.5], ['shift_value', 0, 1.0, 0], ['shift_value', 2, 1.0, 0], ['same_scaling', 0, 2], ['same_scaling', 0, 0],
               ['split_pieces', 1, 0.5], ['shift_value', 1, [0.0, 0.0, 1.0], 0], ['shift_value', 5, 0.0, 0], ['same_scaling', 1, 5]]),
+    dict(seed=12, kind='corpus', name='same-scaling-later-dimension',
+         inits=[[[[0.0, 0.0, 0.0], [1.0, 1.0, 1.0]], [0, 1]], [[[0.0, 0.0, 0.0], [1.0, 1.0, 2.0]], [0, 1]],
+                [[[0.0, 0.0, 0.0, 5.0], [1.0, 1.0, 1.0, 6.0]], [0, 1]], [[[0.0, 0.0, 0.0, 5.0], [1.0, 1.0, 1.0, 7.0]], [0, 1]]],
+         ops=[['shift_value', 0, 0.0, 0], ['shift_value', 1, 0.0, 0], ['same_scaling', 0, 1], ['same_scaling', 1, 0],
+              ['scale_factor', 2, [1.0, 1.0, 1.0, 1.0], 0], ['scale_factor', 3, [1.0, 1.0, 1.0, 2.0], 0], ['scale_factor', 3, [1.0, 1.0, 1.0, 0.5], 0],
+              ['same_scaling', 2, 3], ['same_scaling', 2, 2]]),
     dict(seed=10, kind='corpus', name='near-constant-column', no_guard=True,
          inits=[[[[1.0, 0.0], [1.0000000000000002, 1.0]], [0, 1]]],
          ops=[['scale_factor', 0, 1.0, 0], ['scale_range', 0, 0, 1, 0]]),
@@ -614,18 +909,27 @@ CORPUS = [
 
 def run(chk):
     chk.coq_obligations()
-    n = chk.n(400, 12000)
-    cases = [dict(c) for c in CORPUS] + [gen_case(chk.rng, chk.tier) for _ in range(n)]
-    impl = run_impl(impl_run, cases, limit=120)
+    n = chk.n(3000, 30000)
+    nbig = chk.n(52, 400)
+    try:                                           # import once in the parent: the forked workers inherit the loaded library
+        import warnings
+        with warnings.catch_warnings():
+            warnings.simplefilter('ignore')
+            import sparseSpACE.DEMachineLearning  # noqa: F401
+    except Exception:
+        pass
+    cases = [dict(c) for c in CORPUS] + [gen_big_case(chk.rng, chk.tier) for _ in range(nbig)] + [gen_case(chk.rng, chk.tier) for _ in range(n)]
+    impl = run_impl(impl_run, cases, limit=240)
     judge(chk, cases, impl, get_variant(chk))
 
 
 def get_variant(chk=None):
     st, v = run_impl(probe_variant, [None])[0]
-    v = v if st == 'ok' else [0, 0]
+    v = v if st == 'ok' else [0, 0, 0, 0]
     if chk is not None:
-        chk.extra['model_variant'] = dict(remove_samples_dedup=v[0], same_scaling_full_arrays=v[1],
-                                          note='selected by probing the implementation; [0,0] = code as found')
+        chk.extra['model_variant'] = dict(remove_samples_dedup=v[0], same_scaling_full_arrays=v[1], accumulated_offset=v[2],
+                                          concatenate_compares_affine_maps=v[3],
+                                          note='selected by probing the implementation; the repository today is [1,1,0,0]')
     return v
 
 
@@ -639,7 +943,7 @@ def judge(chk, cases, impl, variant):
         batch = []
         for i in todo:
             mops, owner = model_ops(impl[i][1]['trace'])
-            batch.append((0, [impl[i][1]['inits'], mops, variant]))
+            batch.append((1, [[it[:2] for it in impl[i][1]['inits']], mops, variant]))
         out = run_model(18, batch)
         again = []
         for i, o in zip(todo, out):
@@ -660,6 +964,14 @@ def judge(chk, cases, impl, variant):
                         ent['soft'] = True
                         again.append(i)
                         break
+                if (ent['op'][0] == 'remove_samples' and not ent.get('resync_soft') and not sx.is_err(ob) and ent['obs'][0] == 0 == ob[0]
+                        and len(ob) == 3 and 'newh' in ent and cmp_obs(ent['obs'], ob)[0] == 2):
+                    # the removed samples come back in another order (e.g. sorted indices) with the same content: not a C18 matter
+                    if cmp_obs(ent['obs'][1], ob[1])[0] != 2 and cmp_obs(sorted_snapshot(ent['obs'][2]), sorted_snapshot(ob[2], model=True))[0] != 2:
+                        ent['resync_soft'] = [[ent['newh'], ent['obs'][2]]]
+                        ent['soft'] = True
+                        again.append(i)
+                        break
         todo = again
     keys, samples = [], []
     for i, (c, (st, r)) in enumerate(zip(cases, impl)):
@@ -674,12 +986,26 @@ def judge(chk, cases, impl, variant):
         chk.traces += 1
         chk.count('ops=%d' % len(tr))
         for s in r['inits']:
-            chk.count('init_n=%s' % ('0' if not s[0] else '1' if len(s[0]) == 1 else '2-12' if len(s[0]) <= 12 else '13-40'))
+            chk.count('init_n=%s' % size_bucket(len(s[0])))
+            sp = s[2] if len(s) > 2 else {}
+            chk.count('ctor=%s' % sp.get('ctor', 'tuple'))
+            chk.count('labels=%s' % sp.get('labels', 'corpus'))
+            chk.count('values=%s' % sp.get('values', 'corpus'))
             if s[0]:
                 chk.count('d=%d' % len(s[0][0]))
         # oracle verdicts (implementation alone)
         for j, ent in enumerate(tr):
             chk.count('op=' + ent['op'][0])
+            if j and ent['op'][1] == tr[j - 1]['op'][1]:
+                chk.count('history:same-object-as-previous-op')
+            if j and ent['op'] == tr[j - 1]['op']:
+                chk.count('history:verbatim-repetition')
+            if ent['op'][0] in ('scale_range', 'scale_factor', 'shift_value'):
+                chk.count('override=%d' % ent['op'][-1])
+                if ent['op'][0] != 'scale_range':
+                    chk.count('argument=%s' % ('array' if isinstance(ent['op'][2], list) else 'float'))
+            if ent.get('judge'):
+                chk.count('concatenate-judged-by=' + ent['judge'])
             if ent.get('exc'):
                 chk.count('raised:%s/%s' % (ent['op'][0], ent['exc'][0]))
             for v in ent['viol']:
@@ -701,6 +1027,15 @@ def judge(chk, cases, impl, variant):
             ent = tr[ow]
             k = ent['op'][0]
             mob = ob
+            if k == 'one_vs_others':
+                continue
+            if k == 'remove_labels' and isinstance(ob, list) and len(ob) == 3:
+                mob = ob[:2]
+                if ob[2] != 1 and ob[0] == 0:
+                    chk.violation('corr:C18/remove_labels', 'remove-labels-index-list-inadmissible', {}, dict(base, ops=[e['op'] for e in tr[:ow + 1]]),
+                                  dict(step=ow, idx=ent.get('idx'), note='the labels removed are not a rnd.sample of round(p*labelled) labelled samples'),
+                                  failing_input=False)
+                    break
             if k == 'mbf' and isinstance(ob, list) and len(ob) == 3:
                 mob = ob[:2]
                 if ob[2] != 1 and ob[0] == 0 and not ent.get('soft'):
@@ -709,7 +1044,7 @@ def judge(chk, cases, impl, variant):
                                   failing_input=False)
                     break
             if ent.get('soft'):
-                chk.count('mbf-order-deviation')
+                chk.count(k + '-order-deviation')
                 continue
             st2, path = cmp_obs(ent['obs'], mob)
             if st2 == 1:
@@ -718,6 +1053,11 @@ def judge(chk, cases, impl, variant):
                 # equality of attributes that carry float rounding (exact in the model): not decidable by the exact model
                 chk.count('ambiguous:same_scaling-on-rounded-values')
                 continue
+            if st2 == 2 and k == 'concatenate' and rounded and variant[3] and ent['obs'][0] != (mob[0] if isinstance(mob, list) and mob else None):
+                # refusal decided by exact equality of accumulated maps that carry float rounding: not decidable by the exact model;
+                # the stores diverge here, the rest of this history is judged by the implementation-side predicates only
+                chk.count('ambiguous:concatenate-refusal-on-rounded-maps')
+                break
             if st2 == 2:
                 chk.violation('corr:C18/' + k, 'model-differs', {'op': k, 'raised_impl': ent['obs'][0] if ent['obs'] else None,
                                                                  'raised_model': mob[0] if isinstance(mob, list) and mob else None},
@@ -733,9 +1073,11 @@ def judge(chk, cases, impl, variant):
         if len(samples) < 3 and nmove >= 5 and nsc >= 2 and c.get('kind') == 'random':
             samples.append(dict(inits=str(r['inits'])[:300], ops=[e['op'] for e in tr], last_observation=str(tr[-1]['obs'])[:300]))
     chk.record_cases(len(cases), keys,
-                     'random DataSet operation sequences (1-3 initial sets, d 1..4, 0..40 samples on the lattice k/8 with ties/constant '
-                     'columns/unlabelled samples, <=15 operations out of 12 kinds incl. rejected ones) + fixed corpus; non-trivial = at least 3 '
-                     'successful operations, at least one successful scaling operation and an initial set with >= 2 samples; distinct by (initial sets, operations)',
+                     'random DataSet operation sequences (1-3 initial sets built through 5 constructor forms, d 1..8, 0..130 samples on dyadic lattices '
+                     '(k/8, integers, scaled, far from the origin, negative) with ties/constant columns, 9 label pools incl. non-contiguous/unsorted/large labels '
+                     'and unlabelled samples, <=15 operations out of 16 kinds incl. rejected ones, 30% on the same object as the previous operation) + scripted '
+                     'histories on 63..2049 samples + fixed corpus; non-trivial = at least 3 successful operations, at least one successful scaling operation '
+                     'and an initial set with >= 2 samples; distinct by (initial sets, operations)',
                      samples)
 
 
@@ -756,10 +1098,10 @@ def replay(chk, rep):
             bad += 1
             print('   PROPERTY PREDICATE FAILS:', v['kind'], v['sig'], v['why'])
     mops, owner = model_ops(r['trace'])
-    o = run_model(18, [(0, [r['inits'], mops, get_variant()])])[0]
+    o = run_model(18, [(1, [[it[:2] for it in r['inits']], mops, get_variant()])])[0]
     for m, ow, ob in zip(mops, owner, o if isinstance(o, list) else []):
         if ow is not None:
-            st2, path = cmp_obs(r['trace'][ow]['obs'], ob[:2] if r['trace'][ow]['op'][0] == 'mbf' else ob)
+            st2, path = cmp_obs(r['trace'][ow]['obs'], ob[:2] if r['trace'][ow]['op'][0] in ('mbf', 'remove_labels') else ob)
             print('   model step', ow, ['agrees', 'agrees up to rounding', 'DIFFERS at ' + path][st2], str(ob)[:300] if st2 == 2 else '')
     print('property predicate:', 'violated' if bad else 'holds')
     return 1 if bad else 0
